@@ -5,6 +5,7 @@
 -/
 import Theorems.C11
 import Theorems.C17
+import Theorems.Routing
 
 namespace Amqp.Limits
 open Amqp.Handles Amqp.Gen.Limits
